@@ -141,4 +141,106 @@ class Generator:
     def pointers(self) -> List[int]:
         return list(range(len(self.edges)))
 '''),
+    "PY8": dict(
+        positive='''
+from dataclasses import dataclass
+@dataclass(frozen=True)
+class Tag:
+    tag: str = ''
+    def __post_init__(self):
+        object.__setattr__(self, 'tag', self.tag.strip().lower())
+COUNTER = [0]
+@dataclass(frozen=True)
+class Identifier(Tag):
+    index: int = 0
+    def __post_init__(self):
+        COUNTER[0] += 1
+''',
+        negative='''
+from dataclasses import dataclass
+@dataclass(frozen=True)
+class Tag:
+    tag: str = ''
+    def __post_init__(self):
+        object.__setattr__(self, 'tag', self.tag.strip().lower())
+COUNTER = [0]
+@dataclass(frozen=True)
+class Identifier(Tag):
+    index: int = 0
+    def __post_init__(self):
+        super().__post_init__()
+        COUNTER[0] += 1
+@dataclass(frozen=True)
+class Other:
+    index: int = 0
+    def __post_init__(self):
+        COUNTER[0] += 1
+'''),
+    "PY9": dict(
+        positive='''
+from itertools import groupby
+def by_kind(operations):
+    return {kind: list(group) for kind, group in groupby(operations, key=type)}
+''',
+        negative='''
+from itertools import groupby
+def by_kind(operations):
+    ordered = sorted(operations, key=lambda o: type(o).__name__)
+    return {kind: list(group) for kind, group in groupby(ordered, key=lambda o: type(o).__name__)}
+def runs(operations):
+    return [(kind, len(list(group))) for kind, group in groupby(operations, key=type)]
+'''),
+    "PY10": dict(
+        positive='''
+from dataclasses import dataclass
+from functools import cached_property
+from typing import List
+@dataclass(frozen=True)
+class Generator:
+    edges: List[str]
+    @cached_property
+    def pointers(self) -> List[int]:
+        return list(range(len(self.edges)))
+''',
+        negative='''
+from dataclasses import dataclass
+from functools import cached_property
+from typing import List, Tuple
+@dataclass(frozen=True)
+class Generator:
+    edges: Tuple[str, ...]
+    name: str = ''
+    @cached_property
+    def pointers(self) -> List[int]:
+        return list(range(len(self.edges)))
+    @property
+    def label(self) -> str:
+        return self.name.upper()
+'''),
+    "PY11": dict(
+        positive='''
+from dataclasses import dataclass, field
+from typing import Dict, List
+@dataclass
+class Manager:
+    lookup: Dict[str, int] = field(default_factory=dict)
+    additives: List[int] = field(default_factory=list)
+class DefaultManager(Manager):
+    lookup = {'M': 1}
+    additives = [2]
+''',
+        negative='''
+from dataclasses import dataclass, field
+from typing import Dict, List
+@dataclass
+class Manager:
+    lookup: Dict[str, int] = field(default_factory=dict)
+    additives: List[int] = field(default_factory=list)
+@dataclass
+class DefaultManager(Manager):
+    lookup: Dict[str, int] = field(default_factory=lambda: {'M': 1})
+    KIND = 'default'
+class Holder:
+    _manager = Manager(lookup={'M': 1}, additives=[2])
+'''),
 }
